@@ -191,7 +191,7 @@ pub fn check(ctx: &Ctx) -> Check {
     let parts: Vec<Box<dyn Part>> = vec![Box::new(RandomPart {
         name: "axes-and-permutations",
         rule: "call sets x duplicate-free sample lists (subset, order, named/unnamed mix, 1..4 labels) x a permutation of the input's sample columns x two permutations of the list: absolute (reference model: axes in first-appearance order, lengths 2*count+1, exact values) and metamorphic, all byte-identical stdout: permuted sample columns, list permuted keeping the label order, --samples vs --samples-file; a list permutation changing the label order by pi must give the baseline with axes transposed by pi; ghost sample and empty samples file are errors; ~6 runs per case; non-trivial = >=2 labels with different sample counts and a non-identity column permutation",
-        cases: ctx.tier.pick(2000, 20_000),
+        cases: ctx.tier.pick(2000, 60_000),
         strategy: Box::new(|| strategy().boxed()),
         eval: Box::new(eval),
     })];
